@@ -608,6 +608,10 @@ def _expression_helper(fn) -> Optional[ast.AST]:
                 return None
             if any(isinstance(n, ast.Call) and any(h in ast.unparse(n.func) for h in ("random", "shuffle", "choice", "sample", "append", "extend", "pop", "update", "add")) for n in ast.walk(val)):
                 return None
+            # a call (other than a pure builtin) is never duplicated: the temporary must then be read exactly once
+            n_reads = sum(1 for n in ast.walk(expr) if isinstance(n, ast.Name) and n.id == nm and isinstance(n.ctx, ast.Load))
+            if n_reads > 1 and any(isinstance(n, ast.Call) and ast.unparse(n.func) not in PURE_CALLS for n in ast.walk(val)):
+                return None
             # capture: a comprehension of the remaining expression must not bind a name the value reads
             vfree = {n.id for n in ast.walk(val) if isinstance(n, ast.Name)}
             if _bound_in(expr) & vfree:
